@@ -251,7 +251,25 @@ fn run_case<T: Sc>(ctx: &Ctx, c: &Case, prop: &str, tt: &TTable, seed: u64) {
         ctx.with(|s| s.violate("C13", "covariance-shape", cj(), format!("covariance is {}x{}, expected {}x{}", cov.nrows(), cov.ncols(), dim, dim)));
         return;
     }
-    let sigma2 = stats.reduced_chi2().d();
+    // sigma^2 of the property statement, rebuilt from the definition: ||W(y - Phi c)||^2 / (N - M - P) - NOT the library's own
+    // reduced_chi2() (C12 judges that one; an error there must not hide an error here, nor the other way round)
+    let sigma2 = {
+        let rdef = &yw - &phi_w * &coef;
+        let dof = (n - m - p) as f64;
+        let def = rdef.iter().map(|v| v * v).sum::<f64>() / dof;
+        // each residual carries an absolute rounding error delta (the library works in T): when the two values agree within
+        // what that explains, the library's number is used (so that rounding noise of an almost exact fit does not enter the
+        // covariance comparison); otherwise the definition's
+        let delta = 64.0 * (m as f64 + 2.0) * T::EPS * scale;
+        let bound = (2.0 * rdef.norm() * delta * (n as f64).sqrt() + n as f64 * delta * delta) / dof;
+        let lib = stats.reduced_chi2().d();
+        if (lib - def).abs() <= bound + 1e-6 * def {
+            lib
+        } else {
+            ctx.with(|s| s.inc("sigma2_taken_from_the_definition"));
+            def
+        }
+    };
     // reference sigma^2 (H^T H)^-1 from a one-sided Jacobi SVD of the column-scaled H (accurate
     // also for badly scaled H); the comparison tolerance is the NORMWISE bound that every backward
     // stable inversion of H^T H meets:  |dX| <= K eps kappa_2(H^T H) max|X|
@@ -338,6 +356,13 @@ fn run_case<T: Sc>(ctx: &Ctx, c: &Case, prop: &str, tt: &TTable, seed: u64) {
             }
         } else {
             ctx.with(|s| s.inc("ill_conditioned_not_compared"));
+        }
+        // an Ok result carries a covariance matrix: every entry finite, whatever the conditioning (NaN or infinity is not
+        // "sigma^2 (H^T H)^-1 up to rounding", and a NaN diagonal is not non-negative)
+        if cov.iter().any(|v| !v.is_finite()) {
+            ctx.with(|s| {
+                s.violate("C13", "covariance-not-finite", cj(), format!("fit_with_statistics returned Ok with a covariance matrix containing non-finite entries (diagonal {:?}, reduced chi2 {:e})", (0..dim).map(|a| cov[(a, a)]).collect::<Vec<_>>(), sigma2));
+            });
         }
         // accessors: exactly the diagonal segments (bitwise)
         let lv = stats.linear_coefficients_variance();
@@ -434,16 +459,16 @@ fn run_case<T: Sc>(ctx: &Ctx, c: &Case, prop: &str, tt: &TTable, seed: u64) {
                 let rounding = 64.0 * eps * amp_f * (dim as f64);
                 // the band is a function of the covariance the library reports: no conditioning requirement, only the
                 // cancellation inside the quadratic form limits the comparison
+                let got = rad[i].d();
+                if !(got.is_finite() && got >= 0.0) {
+                    ctx.with(|s| s.violate("C14", "band-not-finite-nonnegative", cj(), format!("radius[{}] = {:e} for p = {}", i, got, pv)));
+                    break;
+                }
                 if !(rounding <= 1e-2) {
                     continue;
                 }
                 compared_any = true;
                 let expect = t_ref * q.sqrt();
-                let got = rad[i].d();
-                if !(got.is_finite() && got >= 0.0) {
-                    ctx.with(|s| s.violate("C14", "band-not-finite-nonnegative", cj(), format!("radius[{}] = {:e} for p = {}", i, got, pv)));
-                    continue;
-                }
                 let tol = (2e-4 + rounding) * expect;
                 let ratio = (got - expect).abs() / tol.max(1e-300);
                 ctx.with(|s| s.max("C14_band_vs_reference", ratio));
@@ -635,7 +660,8 @@ fn cov_cases(thorough: bool) -> Vec<Case> {
             if (!thorough && n > 60 && !matches!(fam, Family::Exp1Off | Family::Exp2Off)) || (!thorough && n > 256 && !matches!(fam, Family::Exp2Off)) {
                 continue;
             }
-            for w in [WKind::None, WKind::Ramp, WKind::InvSigma, WKind::Tiny, WKind::Huge, WKind::Spread, WKind::ZeroAt(2), WKind::NegAt(1)] {
+            let mp = fam.m() + fam.p();
+            for w in [WKind::None, WKind::Ramp, WKind::InvSigma, WKind::Tiny, WKind::Huge, WKind::Spread, WKind::ZeroAt(2), WKind::NegAt(1), WKind::KeepOnly(mp), WKind::KeepOnly(mp + 1), WKind::KeepOnly(mp + 3)] {
                 for nv in [0u64, 1, 2] {
                     for amp in [1.0, 1e-5, 1e5, 4e9] {
                         for f32_ in [false, true] {
